@@ -136,7 +136,7 @@ inductive Ev where
   deriving Inhabited
 
 inductive Err where
-  | desync | fuel | unmodelled | index | key | value | runtime | type
+  | desync | fuel | unmodelled | index | key | value | runtime | type | zerodiv
   deriving DecidableEq, Repr
 
 structure St where
